@@ -41,7 +41,7 @@ RULE = (
     "case = (transport udp|tcp|secure, auto_reconnect, DisconnectResponse behaviour ok|0.5 s late|lost, [(event kind, loop iteration)]); event kinds: hb_drop, hb_err (next 4 ConnectionStateRequests unanswered / E_CONNECTION_ID), "
     "srv_disc_own / srv_disc_foreign (server DisconnectRequest), send_fail (a send started at that iteration, its ACKs dropped on UDP), transport_loss (TCP/secure), user_disc (user calls disconnect()), "
     "connect_drop / connect_err / open_refuse (next connect attempts fail); every kind at every iteration 1..N of the fault-free session (N learned by running it) for all 6 variants, "
-    "pairs of events sampled by Hypothesis (biased to adjacent iterations), all pairs of the instantaneous kinds <= 2 iterations apart enumerated (quick; thorough: all kinds, <= 6 apart, x 3 DisconnectResponse behaviours), plus loss x loss/user_disc pairs up to 12 (16) apart with auto_reconnect; triples on the auto-reconnect variants: loss #1 at every iteration, loss #2 in / next to the iteration in which the reconnect started by #1 finishes (learned by running #1 alone), loss #3 1..5 (8) iterations later, optionally user_disc 6 iterations after that, plus Hypothesis-sampled triples; ConnectionManager: op sequences report/register/unregister/self-unregistering callback vs a dedup model; "
+    "pairs of events sampled by Hypothesis (biased to adjacent iterations), all pairs of the instantaneous kinds <= 2 iterations apart enumerated (quick; thorough: all kinds, <= 6 apart, x 3 DisconnectResponse behaviours), plus loss x loss/user_disc pairs up to 12 (16) apart with auto_reconnect; triples on the auto-reconnect variants: loss #1 at every iteration, loss #2 in / next to the iteration in which the reconnect started by #1 finishes (learned by running #1 alone), loss #3 1..5 (8) iterations later, optionally user_disc 6 iterations after that, plus Hypothesis-sampled triples; the same session with a main loop registered on the ConnectionManager (register_loop(): reports applied one iteration later): every single event and every pair of instantaneous kinds at most 1 iteration apart, auto_reconnect on; ConnectionManager (with and without register_loop()): op sequences report / burst of 2-4 reports issued back-to-back without yielding to the loop (AA, ABA, ABB, ... and random) / register / unregister / self-unregistering callback vs a dedup model over the reports in issue order, every burst of 1..4 reports from every state enumerated; "
     "non-trivial = the injected event changed the wire log relative to the fault-free session (a fault really happened); distinct by case"
 )
 LEVEL_TEXT = "Each fault kind is injected at every loop iteration of a bounded tunnel session (UDP, TCP, IP Secure; auto-reconnect on/off) in virtual time, pairs of faults are sampled; reconnect concurrency, frames after a user disconnect and the reported connection state are decided from one totally ordered log of wire frames, callbacks and markers."
@@ -271,6 +271,8 @@ def execute(case):
         gw.attach(loop)
         xknx = XKNX()
         cm = xknx.connection_manager
+        if case.get("cm_loop"):
+            await cm.register_loop()  # as XKNX.start() does: reports are queued with call_soon_threadsafe and applied later
         for i in (0, 1):
             cm.register_connection_state_changed_cb(lambda state, i=i: gw.mark("state", "cb", cb=i, state=state.name))
         base = {"udp": UDPTunnel, "tcp": TCPTunnel, "secure": SecureTunnel}[transport]
@@ -541,15 +543,15 @@ def check_case(ctx, case, baseline=None):
 _BASE: dict[tuple, tuple] = {}
 
 
-def baseline(transport: str, ar: bool, ctx=None) -> tuple:
+def baseline(transport: str, ar: bool, ctx=None, cm_loop: bool = False) -> tuple:
     """(N, digest) of the fault-free session. A property violation in the fault-free session itself is
     recorded on `ctx` like any other (never a harness error); only an inconclusive run is."""
-    key = (transport, ar)
+    key = (transport, ar, cm_loop)
     if key not in _BASE:
         from vk.core import Ctx
 
         c = ctx if ctx is not None else Ctx("C25", "quick", 0)
-        r = check_case(c, {"transport": transport, "auto_reconnect": ar, "events": []})
+        r = check_case(c, {"transport": transport, "auto_reconnect": ar, "events": [], **({"cm_loop": True} if cm_loop else {})})
         if r is None or r[0] is None:
             raise HarnessError(f"fault-free session did not complete for {key}")
         _BASE[key] = (r[0], r[2])
@@ -569,6 +571,23 @@ def _single_shard(ctx, transport: str, ar: bool, kind: str, lo: int, hi: int) ->
     ctx.classes[f"{transport}{'+ar' if ar else ''}"] += n
     if lo == 1 and kind == "user_disc" and ar:
         ctx.sample({"transport": transport, "auto_reconnect": ar, "kind": kind, "ticks": f"1..{N}"})
+
+
+def _loop_shard(ctx, transport: str, ka: str, kb) -> None:
+    """The same session with a main loop registered on the ConnectionManager (state reports applied one iteration later):
+    every single event (kb None) or every pair at most 1 iteration apart, auto_reconnect on."""
+    N, dig = baseline(transport, True, None, True)
+    n = nt = 0
+    for k in range(2, N + 1):
+        for d in ((0,) if kb is None else (0, 1)):
+            if ka == kb and d == 0:
+                continue
+            ev = [[ka, k]] + ([[kb, k + d]] if kb is not None else [])
+            r = check_case(ctx, {"transport": transport, "auto_reconnect": True, "cm_loop": True, "events": ev}, dig)
+            n += 1
+            if r is not None and r[1]:
+                nt += 1
+    ctx.bulk(n, nt, "registered-loop:" + ("single" if kb is None else "pair"))
 
 
 def _adjacent_shard(ctx, transport: str, ar: bool, ka: str, kb: str, dmax: int, dr, dmin: int = 0) -> None:
@@ -685,6 +704,10 @@ def _pair_shard(ctx, n: int) -> None:
 
 
 def cm_execute(case):
+    """ops: [op, a, b] with op in reg / reg1 (self-unregistering) / unreg (a = callback id), report (a = state, b = type index)
+    and burst (a = [[state, type], ...] issued back-to-back without yielding to the loop). With case['loop'] the manager has a
+    registered main loop (reports are queued with call_soon_threadsafe and applied later); the loop runs after every op.
+    Model: dedup over the reports in issue order."""
     from xknx.core import XknxConnectionState, XknxConnectionType
     from xknx.core.connection_manager import ConnectionManager
 
@@ -701,6 +724,7 @@ def cm_execute(case):
         oneshot: set[int] = set()
         model_state = XknxConnectionState.DISCONNECTED
         model_type = XknxConnectionType.NOT_CONNECTED
+        any_oneshot = any(o[0] == "reg1" for o in case["ops"])
 
         def make(i: int, one: bool):
             def cb(state):
@@ -712,7 +736,8 @@ def cm_execute(case):
 
         for step, (op, a, b) in enumerate(case["ops"]):
             calls.clear()
-            expect: list[tuple[int, str]] = []
+            expect: dict[int, list[str]] = {}
+            before = model_state
             if op == "reg" or op == "reg1":
                 if a not in registered:
                     registered[a] = make(a, op == "reg1")
@@ -723,31 +748,41 @@ def cm_execute(case):
                 f = registered.pop(a, None)
                 oneshot.discard(a)
                 cm.unregister_connection_state_changed_cb(f if f is not None else make(99, False))
-            elif op == "report":
-                st_, ty = states[a % len(states)], types[b % len(types)]
-                cm.connection_state_changed(st_, ty)
-                if st_ != model_state:
-                    model_state, model_type = st_, ty
-                    expect = [(i, st_.name) for i in registered]
-                    for i in list(registered):
-                        if i in oneshot:
-                            del registered[i]
-                            oneshot.discard(i)
+            elif op in ("report", "burst"):
+                reports = [(a, b)] if op == "report" else [tuple(r) for r in a]
+                for sa, tb in reports:  # issued back-to-back, the loop does not run in between
+                    st_, ty = states[sa % len(states)], types[tb % len(types)]
+                    cm.connection_state_changed(st_, ty)
+                    if st_ != model_state:
+                        model_state, model_type = st_, ty
+                        for i in list(registered):
+                            expect.setdefault(i, []).append(st_.name)
+                            if i in oneshot:
+                                del registered[i]
+                                oneshot.discard(i)
             if case["loop"]:
-                await asyncio.sleep(0)
-                await asyncio.sleep(0)
+                for _ in range(3):
+                    await asyncio.sleep(0)
+            got: dict[int, list[str]] = {}
+            for i, name in calls:
+                got.setdefault(i, []).append(name)
             where = f"step {step} {op}({a},{b})"
-            if sorted(calls) != sorted(expect):
-                got, exp = sorted(calls), sorted(expect)
-                if len(got) > len(exp) and not exp:
-                    problems.append(("callback-on-unchanged-state", f"{where}: calls {got}"))
-                elif any(calls.count(c) > 1 for c in calls):
-                    problems.append(("callback-twice-per-change", f"{where}: calls {got}, expected {exp}"))
-                elif len(got) < len(exp):
-                    skipped_by_oneshot = any(op_ == "reg1" for op_, _, _ in case["ops"])
-                    problems.append(("callback-skipped-when-another-unregisters" if skipped_by_oneshot else "callback-missing", f"{where}: calls {got}, expected {exp}"))
+            if got != expect:
+                def dup(seq, first):
+                    prev = first
+                    for x in seq:
+                        if x == prev:
+                            return True
+                        prev = x
+                    return False
+
+                if any(dup(seq, before.name) for seq in got.values()):
+                    key = "callback-same-state-twice"
+                elif any(len(got.get(i, [])) < len(e) for i, e in expect.items()):
+                    key = "callback-skipped-when-another-unregisters" if any_oneshot and op == "report" else "callback-missing"
                 else:
-                    problems.append(("callback-unexpected", f"{where}: calls {got}, expected {exp}"))
+                    key = "callback-unexpected"
+                problems.append((key, f"{where}: calls {got}, expected {expect}"))
             if cm.state != model_state:
                 problems.append(("state", f"{where}: state {cm.state} model {model_state}"))
             if cm.connected.is_set() != (model_state == XknxConnectionState.CONNECTED):
@@ -756,6 +791,8 @@ def cm_execute(case):
                 problems.append(("connection-type", f"{where}: {cm.connection_type} model {model_type}"))
             if (cm.connected_since is not None) != (model_state == XknxConnectionState.CONNECTED):
                 problems.append(("connected-since", f"{where}: connected_since={cm.connected_since} model {model_state}"))
+            if problems:
+                break  # lock-step: the model is out of sync from here on
         return None
 
     _, loop = run_case(scenario, max_iters=100_000)
@@ -776,7 +813,17 @@ def cm_check(ctx, case) -> None:
         ctx.fail(f"C25:cm:{key}", case, detail)
 
 
+_cm_report = st.tuples(st.integers(0, 2), st.integers(0, 5))
+_cm_burst = st.one_of(
+    st.lists(_cm_report, min_size=2, max_size=4),
+    # shapes that matter with a registered loop: same state twice, A-B-A, A-B-B, A-A-B
+    st.tuples(st.integers(0, 2), st.integers(1, 2), st.sampled_from(["AA", "ABA", "ABB", "AAB", "ABAB", "ABBA"])).map(
+        lambda t: [[(t[0] + (t[1] if c == "B" else 0)) % 3, 1 + i] for i, c in enumerate(t[2])]
+    ),
+).map(lambda l: [list(r) for r in l])
 _cm_op = st.one_of(
+    st.tuples(st.just("burst"), _cm_burst, st.just(0)),
+    st.tuples(st.just("burst"), _cm_burst, st.just(0)),
     st.tuples(st.just("report"), st.integers(0, 2), st.integers(0, 5)),
     st.tuples(st.just("report"), st.integers(0, 2), st.integers(0, 5)),
     st.tuples(st.just("reg"), st.integers(0, 3), st.just(0)),
@@ -789,7 +836,20 @@ cm_cases = st.fixed_dictionaries({"cm": st.just(True), "loop": st.booleans(), "o
 def _cm_oracle(ctx, case) -> None:
     cm_check(ctx, case)
     ops = [o[0] for o in case["ops"]]
-    ctx.case(repr(case), nontrivial=ops.count("report") >= 2 and ("reg" in ops or "reg1" in ops), cls=["cm", "cm:loop-registered" if case["loop"] else "cm:direct"], sample=case if len(ops) > 8 and ctx.shard == 0 and len(ctx.samples) < 3 else None)
+    ctx.case(repr(case), nontrivial=ops.count("report") + 2 * ops.count("burst") >= 2 and ("reg" in ops or "reg1" in ops), cls=["cm", "cm:loop-registered" if case["loop"] else "cm:direct", *(["cm:burst"] if "burst" in ops else [])], sample=case if len(ops) > 8 and ctx.shard == 0 and len(ctx.samples) < 3 else None)
+
+
+def _cm_enum_shard(ctx, loop_registered: bool) -> None:
+    """Every burst of 1..4 reports over the three states, from every applied state, two callbacks registered."""
+    n = nt = 0
+    for init in range(3):
+        for length in range(1, 5):
+            for burst in itertools.product(range(3), repeat=length):
+                case = {"cm": True, "loop": loop_registered, "ops": [["reg", 0, 0], ["reg", 1, 0], ["report", init, 1], ["burst", [[sx, 2 + i] for i, sx in enumerate(burst)], 0], ["report", (burst[-1] + 1) % 3, 1]]}
+                cm_check(ctx, case)
+                n += 1
+                nt += length >= 2
+    ctx.bulk(n, nt, "cm:enum-bursts" + (":loop-registered" if loop_registered else ":direct"))
 
 
 def _cm_shard(ctx, n: int) -> None:
@@ -805,11 +865,11 @@ def selftest(ctx) -> None:
 
 def _job(ctx, what: str, *args) -> None:
     """One fork pool for everything (forking is the expensive part on a busy box)."""
-    {"single": _single_shard, "adjacent": _adjacent_shard, "pairs": _pair_shard, "cm": _cm_shard, "triples": _triple_shard, "triples-hyp": _triple_hyp_shard}[what](ctx, *args)
+    {"single": _single_shard, "adjacent": _adjacent_shard, "pairs": _pair_shard, "cm": _cm_shard, "cm-enum": _cm_enum_shard, "loop": _loop_shard, "triples": _triple_shard, "triples-hyp": _triple_hyp_shard}[what](ctx, *args)
 
 
 def run(ctx) -> None:
-    jobs: list[tuple] = [("cm", ctx.n(300, 5000))] * 4
+    jobs: list[tuple] = [("cm", ctx.n(300, 5000))] * 4 + [("cm-enum", True), ("cm-enum", False)]
     ns = {}
     for transport, ar in VARIANTS:
         N, _ = baseline(transport, ar, ctx)  # cached here, inherited by the forked shards
@@ -837,6 +897,13 @@ def run(ctx) -> None:
         firsts = ["srv_disc_own", "send_fail"] if t == "udp" else ["srv_disc_own", "transport_loss"]
         jobs += [("triples", t, k1kind, lo, lo + 5, ctx.n(5, 8)) for k1kind in firsts for lo in range(2, N + 1, 6)]
     jobs += [("triples-hyp", ctx.n(40, 1500))] * 16
+    # ConnectionManager with a registered main loop under the tunnel session
+    for t in ("udp", "tcp", "secure"):
+        baseline(t, True, ctx, True)
+        ctx.case(("fault-free", t, True, "loop"), False, "fault-free")
+        jobs += [("loop", t, ka, None) for ka in kinds_for(t)]
+        if t != "secure" or not ctx.quick:
+            jobs += [("loop", t, ka, kb) for ka in INSTANT for kb in INSTANT if ka in kinds_for(t) and kb in kinds_for(t)]
     parallel(ctx, _job, jobs)
     ctx.notes["adjacent_pairs_enumerated"] = {"kinds": near, "max_iterations_apart": ctx.n(2, 6), "also": "loss x loss/user_disc pairs up to %d iterations apart with auto_reconnect" % ctx.n(12, 16)}
     ctx.exhaustive = False
